@@ -125,7 +125,66 @@ def cli_check_only(ctx):
         os.chdir(cwd)
 
 
+def second_job_same_object(ctx):
+    """one Lithium object, two jobs (`main(argv)` twice — an embedding tool, a test harness): the second job's file is a NEW
+    testcase (same name or another one) and its test rejects the original.  'Lithium runs no further test, never writes to
+    the testcase file': in particular not what the FIRST job ended with"""
+    import contextlib
+    import io
+    import os
+    import sys
+    from lithium.reducer import Lithium
+    from .. import loaders
+
+    d = loaders.scratch() / "c11-second-job"
+    d.mkdir(exist_ok=True)
+    (d / "c11_job.py").write_text(
+        "import os\nCALLS = []\ndef interesting(args, prefix):\n    data = open(args[-1], 'rb').read()\n    CALLS.append(data)\n"
+        "    return os.environ['C11_NEEDLE'].encode() in data\n")
+    cwd = os.getcwd()
+    os.chdir(d)
+    try:
+        for strategy in ("minimize", "minimize-around", "minimize-balanced", "minimize-collapse-brace", "check-only"):
+            for same_name in (True, False):
+                for flag in ("--lines", "--char"):
+                    sys.modules.pop("c11_job", None)
+                    lith = Lithium()
+                    first = d / "job.txt"
+                    first.write_bytes(b"a\nneedle\nc\nd\n")
+                    os.environ["C11_NEEDLE"] = "needle"
+                    case = dict(cli=True, strategy=strategy, same_name=same_name, flag=flag, second_job=True)
+                    try:
+                        with contextlib.redirect_stdout(io.StringIO()), contextlib.redirect_stderr(io.StringIO()):
+                            rc1 = lith.main([flag, "--strategy=" + strategy, "c11_job.py", str(first)])
+                            after_first = first.read_bytes()
+                            second = first if same_name else d / "job2.txt"
+                            data2 = b"q\nr\ns\n"
+                            second.write_bytes(data2)
+                            os.utime(second, ns=(10**18, 10**18))
+                            n_before = lith.test_count
+                            rc2 = lith.main([flag, "--strategy=" + strategy, "c11_job.py", str(second)])
+                    except (Exception, SystemExit) as exc:  # pylint: disable=broad-except
+                        ctx.fail("cli-raises", f"two jobs on one object ({strategy}, {flag}): {type(exc).__name__}: {exc}", case)
+                        continue
+                    finally:
+                        os.environ.pop("C11_NEEDLE", None)
+                    ctx.evaluations += 1
+                    ctx.bump("second-job-same-object")
+                    if second.read_bytes() != data2 or os.stat(second).st_mtime_ns != 10**18:
+                        ctx.fail("rejected-original", f"{strategy} {flag}: second job on the same Lithium object, its test rejects the original "
+                                 f"{data2!r}: the file now holds {second.read_bytes()!r} (the first job ended with {after_first!r})", case)
+                    elif rc2 == 0 or rc1 != (0 if strategy != "check-only" else 0):
+                        ctx.fail("status", f"{strategy} {flag}: statuses of the two jobs {rc1}, {rc2}; the second job's original was rejected", case)
+                    elif not same_name and first.read_bytes() != after_first:
+                        ctx.fail("rejected-original", f"{strategy} {flag}: the second job changed the FIRST job's file to {first.read_bytes()!r}", case)
+                    ctx.nontriv("second-job", strategy, same_name, flag)
+    finally:
+        os.chdir(cwd)
+        sys.modules.pop("c11_job", None)
+
+
 def search(ctx):
+    second_job_same_object(ctx)
     time_limit_status(ctx)
     edited_file(ctx)
     time_limit_status(ctx)
@@ -137,6 +196,7 @@ def run(ctx) -> int:
     proof = common.proof_stage(ctx.pid)
     edited_file(ctx)
     cli_check_only(ctx)
+    second_job_same_object(ctx)
     time_limit_status(ctx)
     drv.d1(ctx, WHICH, 20000 if ctx.thorough else 5000, NT, allow_abort=False)
     drv.d2_random(ctx, WHICH, NT, 3000 if ctx.thorough else 1000, aborts=False)
